@@ -24,6 +24,10 @@ pub struct Trace {
     pub script: Option<Vec<Act>>,
     /// extra random multi-deviation scripts
     pub extra_scripts: Vec<Vec<Act>>,
+    /// also parse the binary cut at word boundaries (None: no; Some(None): every boundary; Some(Some(k)): only after word k):
+    /// a cut binary is complete only if the cut falls between instructions
+    #[serde(default)]
+    pub cuts: Option<Option<usize>>,
 }
 
 pub struct C14;
@@ -236,11 +240,13 @@ impl Property for C14 {
             }
             extra.push(sc);
         }
+        let cuts = if faults.is_empty() && stream.insts.len() <= 40 && rng.chance(1, 3) { Some(None) } else { None };
         Trace {
             stream,
             faults,
             script: None,
             extra_scripts: extra,
+            cuts,
         }
     }
 
@@ -403,6 +409,53 @@ impl Property for C14 {
                     return Some(v);
                 }
             }
+            // ---- the medium ends early: every word boundary (all-Continue consumer) ---------------------------
+            if let Some(which) = t.cuts {
+                let nwords = bytes.len() / 4;
+                let ks: Vec<usize> = match which {
+                    Some(k) => vec![k],
+                    None => (5..nwords).collect(),
+                };
+                for k in ks {
+                    if k >= nwords {
+                        continue;
+                    }
+                    let cut = &bytes[..4 * k];
+                    let gc = GuardedBuf::new(cut, true);
+                    let mut rec = Recorder::passive(k + 8);
+                    let res = match guarded(|| parse_bytes(gc.bytes(), &mut rec)) {
+                        Ok(r) => r,
+                        Err(_) => continue, // C04's clause
+                    };
+                    cov.hit("fault.cut_at_word_boundary");
+                    let vc = accept(cut);
+                    let delivered = rec.insts();
+                    let finalized = rec.log.last() == Some(&Event::Finalize);
+                    if let Outcome::Reject(r) = &vc.outcome {
+                        if res.is_ok() || finalized {
+                            return mk(
+                                "finalize-only-complete",
+                                format!("class={} cut", r.classes[0].name()),
+                                20_000 + k,
+                                format!("binary cut after word {}: the parse returned {:?} (finalize called: {}) after {} instruction callbacks although instruction #{} is cut off / malformed ({})", k, res.as_ref().err().map(|e| format!("{:?}", e)), finalized, delivered.len(), r.index, r.sub),
+                            );
+                        }
+                    }
+                    if !matches!(vc.outcome, Outcome::DontCare(_)) {
+                        if delivered.len() != vc.insts.len() {
+                            return mk("stream-order", "count cut".into(), 20_000 + k, format!("binary cut after word {}: {} instruction callbacks for {} deliverable instructions", k, delivered.len(), vc.insts.len()));
+                        }
+                        for (j, d) in delivered.iter().enumerate() {
+                            if **d != vc.insts[j] {
+                                return mk("stream-order", format!("op={} cut", vc.insts[j].name()), 20_000 + k, format!("binary cut after word {}: callback #{} carried [{}], the stream's instruction is [{}]", k, j + 1, show(d), show(&vc.insts[j])));
+                            }
+                        }
+                    }
+                    if res.is_ok() != finalized {
+                        return mk("finalize-on-success", "cut".into(), 20_000 + k, format!("binary cut after word {}: result ok={} but finalize called={}", k, res.is_ok(), finalized));
+                    }
+                }
+            }
             None
         })();
         RunOut {
@@ -414,6 +467,21 @@ impl Property for C14 {
 
     fn shrink(t: &Trace) -> Vec<Trace> {
         let mut out = vec![];
+        if t.cuts == Some(None) {
+            // pin the sweep to one cut (tried in order)
+            let n = t.stream.encode().0.len();
+            for k in 5..n {
+                let mut c = t.clone();
+                c.cuts = Some(Some(k));
+                c.script = Some(vec![]);
+                c.extra_scripts.clear();
+                out.push(c);
+            }
+            let mut c = t.clone();
+            c.cuts = None;
+            out.push(c);
+            return out;
+        }
         if !t.extra_scripts.is_empty() {
             let mut c = t.clone();
             c.extra_scripts.clear();
